@@ -51,6 +51,7 @@ type Case struct {
 
 // Call the function with the arguments provided.
 func (f *Case) Call(s *slip.Scope, args slip.List, depth int) (result slip.Object) {
+	slip.CheckArgCount(s, depth, f, args, 1, -1)
 	d2 := depth + 1
 	key := args[0]
 	for i, a := range args[1:] {
